@@ -5,6 +5,7 @@ import (
 	"iter"
 	"reflect"
 	"sort"
+	"strconv"
 	"unsafe"
 )
 
@@ -23,7 +24,9 @@ func MapSeq[K comparable, V any](m map[K]V) iter.Seq2[K, V] {
 		for k := range m {
 			keys = append(keys, k)
 		}
-		order(keys)
+		if len(keys) > 1 {
+			order(keys)
+		}
 		for _, k := range keys {
 			v, ok := m[k]
 			if !ok {
@@ -162,7 +165,7 @@ func canonKey(s *Sched, v reflect.Value) string {
 				f := e.Field(i)
 				switch f.Kind() {
 				case reflect.String:
-					d += fmt.Sprintf("%s=%q;", e.Type().Field(i).Name, f.String())
+					d += e.Type().Field(i).Name + "=" + strconv.Quote(f.String()) + ";"
 				case reflect.Int, reflect.Int32, reflect.Int64:
 					// skip mutable counters/flags: only immutable identity-like strings are used
 				}
@@ -197,15 +200,23 @@ func canonKey(s *Sched, v reflect.Value) string {
 		}
 		return e.Type().String() + ":" + canonKey(s, e)
 	case reflect.String:
-		return fmt.Sprintf("%q", v.String())
+		return strconv.Quote(v.String())
 	case reflect.Int, reflect.Int8, reflect.Int16, reflect.Int32, reflect.Int64:
-		return fmt.Sprintf("%020d", v.Int()+(1<<62))
+		return pad20(uint64(v.Int() + (1 << 62)))
 	case reflect.Uint, reflect.Uint8, reflect.Uint16, reflect.Uint32, reflect.Uint64, reflect.Uintptr:
-		return fmt.Sprintf("%020d", v.Uint())
+		return pad20(v.Uint())
 	case reflect.Bool:
 		return fmt.Sprint(v.Bool())
 	}
 	return fmt.Sprintf("%v", ifaceOf(v))
+}
+
+func pad20(u uint64) string {
+	s := strconv.FormatUint(u, 10)
+	for len(s) < 20 {
+		s = "0" + s
+	}
+	return s
 }
 
 func ifaceOf(v reflect.Value) any {
